@@ -681,6 +681,8 @@ class Gen:
                     q = sum(c * m.sys_phases.get(ph, 0.0) for ph, c in cur) / 3600.0
                 else:
                     q = None
+        if iest <= 0.0:
+            return None
         kind = self.r.wpick([("linear", 3), ("stepped", 2), ("imp", 2), ("cc", 2 if phs else 0), ("early", 0.6)])
         steps = self.r.randint(3, 40)
         model = {"kind": kind, "v0": round(v * self.r.pick([1.0, 1.1, 0.95]), 4), "rs0": self.r.pick([0.0, 0.05, 0.1, 0.2])}
